@@ -3,6 +3,11 @@ import CoreBGP.Props.DecTie
 namespace CoreBGP.Props.DecTieC13
 open CoreBGP CoreBGP.Model CoreBGP.Gen CoreBGP.Lemmas.DecTie CoreBGP.Props.DecTie
 
+/-! the generated table, evaluated (a changed decision of these functions is reported here) -/
+private theorem d_run_if0 : decision "peer.run" "if" 0 = .atom "p.inHoldDown" := by decide
+private theorem d_run_if1 : decision "peer.run" "if" 1 =
+    .or (.cmp "!=" "p.fsms[in]" "nil") (.cmp "==" "p.fsmState[out]" "establishedState") := by decide
+
 /-! ## C13: admission of an inbound connection by the peer manager (`peer.run`, `case conn := <-p.inConnCh`) -/
 
 /-- leaves of the two conditions read off a manager state -/
@@ -30,5 +35,70 @@ theorem admission (s : PState) (h : s.pdone = false) :
   by_cases hc : (s.holdDown || s.presentI || decide (s.stO = .established)) = true
   · simp [hc]
   · simp [hc]
+
+end CoreBGP.Props.DecTieC13
+
+namespace CoreBGP.Props.DecTieC13
+open CoreBGP CoreBGP.Model CoreBGP.Gen CoreBGP.Lemmas.DecTie CoreBGP.Props.DecTie
+
+/-! ## C13: the server's part of admission (`Server.handleInboundConn`) -/
+
+/-- addresses as integers (injective: `addrI_inj`) -/
+def addrI (a : Addr) : Int :=
+  (a.id : Int) * 3 + (match a.kind with | .invalid => 0 | .v4 => 1 | .v6 => 2)
+
+theorem addrI_inj (a b : Addr) : addrI a = addrI b ↔ a = b := by
+  constructor
+  · intro h
+    cases a with | mk ka ia => cases b with | mk kb ib =>
+    simp only [addrI] at h
+    cases ka <;> cases kb <;> simp at h ⊢ <;> omega
+  · rintro rfl; rfl
+
+/-- leaves of the conditions of `handleInboundConn` for a connection from `src` to `dst`; `err` is the result of
+splitting / parsing the address strings of an accepted TCP connection, which does not fail -/
+def inboundEnv (s : Server) (src dst : Addr) : Env :=
+  envOf [("nil", 0), ("err", 0), ("exists", b2i (s.lookup src).isSome),
+         ("p.options.localAddress.IsValid()", b2i (((s.lookup src).map (·.localAddr.isValid)).getD false)),
+         ("p.options.localAddress", ((s.lookup src).map (fun c => addrI c.localAddr)).getD 0), ("laddr", addrI dst)]
+
+/-- Go: `if err != nil {close}; p, exists := s.peers[h]; if !exists {close}; if p.options.localAddress.IsValid()
+{ if err != nil || p.options.localAddress != laddr {close} }; p.incomingConnection(conn)` -/
+def goHandsOver (ρ : Env) : Bool :=
+  let d := fun n => BExp.eval ρ (decision "Server.handleInboundConn" "if" n)
+  if d 0 then false
+  else if d 1 then false
+  else if d 2 then (if d 3 then false else true)
+  else true
+
+private theorem d_in0 : decision "Server.handleInboundConn" "if" 0 = .cmp "!=" "err" "nil" := by decide
+private theorem d_in1 : decision "Server.handleInboundConn" "if" 1 = .not (.atom "exists") := by decide
+private theorem d_in2 : decision "Server.handleInboundConn" "if" 2 = .atom "p.options.localAddress.IsValid()" := by decide
+private theorem d_in3 : decision "Server.handleInboundConn" "if" 3 =
+    .or (.cmp "!=" "err" "nil") (.cmp "!=" "p.options.localAddress" "laddr") := by decide
+
+theorem server_admission (s : Server) (src dst : Addr) :
+    (s.admit src dst).isSome = goHandsOver (inboundEnv s src dst) := by
+  unfold goHandsOver Server.admit
+  simp only [d_in0, d_in1, d_in2, d_in3, eval_ne, eval_not, eval_atom, eval_or]
+  cases h : s.lookup src with
+  | none => simp [inboundEnv, envOf, h, b2i]
+  | some c =>
+    have hne : (addrI c.localAddr != addrI dst) = (c.localAddr != dst) := by
+      by_cases hh : c.localAddr = dst
+      · subst hh; simp
+      · have h1 : addrI c.localAddr ≠ addrI dst := fun e => hh ((addrI_inj _ _).1 e)
+        have h2 : (addrI c.localAddr == addrI dst) = false := by simpa using h1
+        have h3 : (c.localAddr == dst) = false := by simpa using hh
+        simp [bne, h2, h3]
+    have e1 : inboundEnv s src dst "err" = 0 := by simp [inboundEnv, envOf]
+    have e2 : inboundEnv s src dst "nil" = 0 := by simp [inboundEnv, envOf]
+    have e3 : inboundEnv s src dst "exists" = 1 := by simp [inboundEnv, envOf, h, b2i]
+    have e4 : inboundEnv s src dst "p.options.localAddress.IsValid()" = b2i c.localAddr.isValid := by
+      simp [inboundEnv, envOf, h]
+    have e5 : inboundEnv s src dst "p.options.localAddress" = addrI c.localAddr := by simp [inboundEnv, envOf, h]
+    have e6 : inboundEnv s src dst "laddr" = addrI dst := by simp [inboundEnv, envOf]
+    simp only [e1, e2, e3, e4, e5, e6, hne, b2i_ne_zero]
+    cases hv : c.localAddr.isValid <;> by_cases hd : c.localAddr = dst <;> simp [hv, hd]
 
 end CoreBGP.Props.DecTieC13
